@@ -9,8 +9,10 @@ import oracle as O
 import impl_optimise as IO
 
 PID = "C20"
-THEOREMS = ["PauLie.Closure.closureList_sound_complete", "PauLie.Closure.closureList_exhausted", "PauLie.Closure.clo_contract"]
-IMPORTS = ["PauLieVerif.Proofs.Closure"]
+THEOREMS = ["PauLie.C20.C20_move_closure", "PauLie.C20.C20_iterate_moves", "PauLie.C20.C20_run_preserves",
+            "PauLie.C20.C20_explore_covers_run",
+            "PauLie.Closure.closureList_sound_complete", "PauLie.Closure.closureList_exhausted", "PauLie.Closure.clo_contract"]
+IMPORTS = ["PauLieVerif.Properties.C20", "PauLieVerif.Proofs.Closure"]
 
 def su_gens(rng, n, kind=None):
     """a generating set of su(2^n): random strings until the closure is everything, or a 2-local universal family,
